@@ -1,12 +1,15 @@
 """
 C17 - delimited list / key=value / INI text decodes to what was encoded.
 
-Lean: lean/N0Verif/Model/Esc.lean, Proofs/Esc.lean, Props/C17.lean, Drv/Esc.lean
+Lean: lean/N0Verif/Model/Esc.lean, Proofs/Esc.lean, Drv/Esc.lean; Model/Ini.lean, Proofs/Ini.lean, Drv/Ini.lean; Props/C17.lean
 B streams: esc.split (random + exhaustive small scope), esc.spec (the Python transcription of the
-  specification against Lean's `splitSpec`), esc.dlist, esc.kv, esc.ddict, esc.ser, esc.unesc, esc.rt
+  specification against Lean's `splitSpec`), esc.dlist, esc.kv, esc.ddict, esc.ser, esc.unesc, esc.rt;
+  ini.value (default_parse_value), ini.isnum (isnumber, every boundary of str.isnumeric), ini.parse (parse_ini on lines
+  with comments, blanks, quotes, numbers, '+=' keys), ini.rt (load_ini(save_file(m)) through a real file), ini.read (load_lines)
 C evaluators: split = one-pass specification, no-escape = plain split, totality, independence of
   neighbours, join round trip, key=value (first tag splits), flat mapping round trip, reserved characters protected, nested mappings serialise, default value,
-  INI round trip (load_ini(save_file(m)) against a reference written from the statement)
+  INI round trip (load_ini(save_file(m)) against a reference written from the statement), ini_lines (parse_ini against the
+  reference), ini_concat ('K=a','K+=b' / unseen key / blank before '+='), ini_comments (comment and blank lines change nothing)
 """
 import itertools
 import os
@@ -20,26 +23,41 @@ MANIFEST = dict(
     technique="Lean 4 theorems over a hand-written model (fuelled while/for/else/pop loop, with a fuel-adequacy theorem) "
               "+ differential correspondence with the implementation + the statement executed on the implementation",
     text="Lean theorems, unbounded in text length, number of items and item contents, for the code with fix patches "
-         "C17-a..d applied: C17_total (split_with_escape returns for every text, every non-empty delimiter, every maxsplit, "
+         "C17-a..g applied: C17_total (split_with_escape returns for every text, every non-empty delimiter, every maxsplit, "
          "escape character None or one character, trim on/off; the model's fuel is adequate: C17_fuel_adequate); "
          "C17_no_escape_is_split (escape character absent from the text => the result is str.split(delimiter, maxsplit), "
          "the empty delimiter's ValueError included); C17_odd_run_stays (when the delimiter does not end with the escape "
          "character the result equals the one-pass specification splitSpec: the delimiter after a piece stays inside the "
          "item exactly when that piece ends with an odd run of escapes, the trailing run of a closed item is halved when "
          "trimming; C17_general_spec gives the reference without that hypothesis); C17_independent (the items before and "
-         "after a closed boundary are computed independently); C17_join_roundtrip / C17_join_roundtrip_drop_empty / "
-         "C17_join_roundtrip_escape (deserialize_list(delimiter.join(items)) returns the items for non-empty item lists whose "
+         "after a closed boundary are computed independently); C17_join_roundtrip / C17_join_roundtrip_drop_empty "
+         "(deserialize_list(delimiter.join(items)) returns the items for non-empty item lists whose "
          "items contain no delimiter character, with parse_empty; without it the empty items are dropped); "
-         "C17_dict_roundtrip (flat mapping with unique keys free of separator characters, ASCII string values over the "
-         "whole reserved alphabet, separators non-empty, containing no backslash, 'x' or lower-case hex digit and sharing no character: "
+         "C17_dict_roundtrip (flat mapping with unique keys free of separator characters, string values over every character - "
+         "inside and outside ASCII since fix C17-e - and the whole reserved alphabet; separators non-empty, containing no "
+         "backslash, 'x' or lower-case hex digit, sharing no character, and no 'u'/'U' when one of their characters is above U+00FF: "
          "unescape(deserialize_dict(serialize_dict(m))) == m); C17_nested_serialises (serialize_dict raises nothing on any "
          "tree of mappings/lists/scalars in which no list directly contains None); C17_default_value (an item without the "
          "equal tag yields (item, default_value)); C17_key_value (the first equal tag splits); C17_values_protected (the text "
-         "written for a value contains no delimiter/equal-tag character, brace, bracket or quote). Counter-example theorems: C17_nonascii_cex, C17_list_none_cex, "
-         "C17_maxsplit_escape_example. The INI part (parse_ini/load_ini/default_parse_value/split_pair) has no Lean model: "
-         "it is checked only by running load_ini(save_file(m)) against a reference written from the statement.",
-    note="unescape is modelled as UTF-8 encoding followed by CPython's unicode_escape decoder (validated by stream esc.unesc); "
-         "upper()/lower() only for ASCII (otherwise unsupported). Open finding C17-e: text outside ASCII does not survive unescape.",
+         "written for a value contains no delimiter/equal-tag character, brace, bracket or quote). "
+         "INI (model of parse_ini, split_pair, default_parse_value, isnumber, the lines save_file writes and load_lines reads): "
+         "C17_ini_roundtrip / C17_ini_roundtrip_scalars / C17_ini_roundtrip_unique (for every non-empty equal tag and every mapping whose "
+         "keys are non-empty stripped ASCII names without equal-tag characters that start no comment and do not end with '+', and whose values "
+         "are integers or texts: parsing the lines save_file writes gives upper-cased keys and typed values, in dict order); "
+         "C17_ini_file_roundtrip (the same through '\\n'.join and line reading when nothing contains a line break); "
+         "C17_ini_value_typing + C17_ini_typing_cases + C17_ini_loaded (which texts load as numbers: [+-]digits is that int, "
+         "[+-]digits.digits is that decimal printed without superfluous zeros, matching quotes are removed, everything else - also "
+         "'.', '- 5' that isnumber lets through - is the stripped text; an int value loads as itself); "
+         "C17_ini_concat / _seen / _unseen ('K=a' then 'K+=b', with or without blanks before '+', stores str(a)+str(b); on an unseen key "
+         "the marker '\\x16' followed by str(b)); C17_ini_comments_ignored / C17_ini_comment_line_ignored (blank lines and lines starting "
+         "with '#' or '//' after leading white space can be removed anywhere). Hypothesis Exact of the INI value theorems: no numeric or "
+         "white-space character outside ASCII, decimals with at most 15 significant digits, at most 7 after the point, zero or >= 0.0001 "
+         "(otherwise round(float(x), 7) is not modelled: the model answers unsupported). Examples kept as theorems: C17_nonascii_example, "
+         "C17_list_none_cex, C17_maxsplit_escape_example.",
+    note="unescape is modelled as latin-1/backslashreplace encoding followed by CPython's unicode_escape decoder (validated by stream esc.unesc); "
+         "upper()/lower() only for ASCII (otherwise unsupported); str.isnumeric() above U+007F is a table (Unicode 15.0) validated at every boundary "
+         "by stream ini.isnum; floats are opaque lexemes. No open finding; fixes proposed in this round: C17-e (non-ASCII text through unescape), "
+         "C17-g ('KEY +=VALUE' with a blank before '+=').",
     design_ref="5/C17",
 )
 
@@ -129,7 +147,7 @@ RESERVED = ["{", "}", "[", "]", '"', "\\"]
 def gen_value(rng, d, eq, nonascii=False):
     al = ["a", "b", "Z", "0", "9", "x", " ", "\\x3b", "\\"] + RESERVED + list(d) + list(eq) + ["\t", "\n", "'", "~"]
     if nonascii:
-        al = al + ["é", "€", "ß"]
+        al = al + ["é", "€", "ß", "\U0001f600", "\u00ff", "\u0100"]
     n = rng.choice([0, 1, 2, 3, 4, 6, 9])
     return "".join(rng.choice(al) for _ in range(n))
 
@@ -183,7 +201,7 @@ def gen_nested_mapping(rng, d, eq, depth, none_in_lists=False):
 
 
 def non_ascii_case(c):
-    """classifier of known finding C17-e: some text of the case is outside ASCII"""
+    """some text of the case is outside ASCII"""
     def na(x):
         if isinstance(x, str):
             return any(ord(ch) > 127 for ch in x)
@@ -196,12 +214,7 @@ def non_ascii_case(c):
     return na(c)
 
 
-def non_ascii_value(c):
-    """classifier of known finding C17-e: some *value* of the mapping is outside ASCII"""
-    return isinstance(c.get("m"), dict) and non_ascii_case(list(c["m"].values()))
-
-
-CLASSIFIERS = {"non_ascii_value": non_ascii_value}
+CLASSIFIERS = {}
 
 
 # ---------------------------------------------------------------------------
@@ -370,7 +383,8 @@ def check_dict_roundtrip(c):
 
 def check_protected(c):
     """reserved characters in values are protected: the value part of every entry contains no
-    delimiter, equal tag, brace, bracket or quote, and a backslash only in front of `x`"""
+    delimiter, equal tag, brace, bracket or quote, and a backslash only in front of `x`, `u` or `U`
+    (the `\\xNN` / `\\uNNNN` / `\\UNNNNNNNN` notation)"""
     sd = impl()[4]
     d, eq = c["d"], c["eq"]
     for k, v in c["m"].items():
@@ -379,7 +393,7 @@ def check_protected(c):
             return {"entry": [k, v], "got": list(r)}
         ev = r[1][len(k + eq):]
         bad = [ch for ch in ev if ch in '{}[]"' or ch in d or ch in eq]
-        if bad or any(ch == "\\" and ev[i + 1:i + 2] != "x" for i, ch in enumerate(ev)):
+        if bad or any(ch == "\\" and ev[i + 1:i + 2] not in ("x", "u", "U") for i, ch in enumerate(ev)):
             return {"entry": [k, v], "text": r[1], "unprotected": bad}
     return None
 
@@ -438,7 +452,7 @@ def ini_reference(m, eq="="):
         key = k.strip().upper()
         val = ini_typed(str(v))
         if key.endswith("+"):
-            key = key[:-1]
+            key = key[:-1].rstrip()
             val = "%s%s" % (out[key], val) if key in out else "\x16%s" % (val,)
         out[key] = val
     return out
@@ -475,7 +489,7 @@ def gen_ini(rng):
     for _ in range(rng.choice([0, 1, 2, 3, 4, 5])):
         k = rng.choice(keys)
         if rng.random() < 0.25:
-            k = k.rstrip() + "+"
+            k = k.rstrip() + rng.choice(["+", "+", " +"])
         t = rng.randrange(9)
         if t == 0:
             v = rng.choice([0, 7, -3, 10**10])
@@ -504,11 +518,285 @@ def ini_in_statement(m):
     return True
 
 
+
+# --- INI: Lean model `Model/Ini.lean` (streams ini.*) ------------------------
+INI_EQS = ["=", "=", "=", ":", "=>", "= "]
+
+
+def ini_impl():
+    from n0struct.n0struct_comprehensions import parse_ini, load_ini, default_parse_value  # noqa
+    from n0struct.n0struct_utils import isnumber  # noqa
+    from n0struct.n0struct_files import save_file, load_lines  # noqa
+
+    return parse_ini, load_ini, default_parse_value, isnumber, save_file, load_lines
+
+
+def ini_scalar_ok(v):
+    return isinstance(v, (int, float, str)) and not isinstance(v, bool)
+
+
+def ini_show_dict(r):
+    """('ok', dict) / ('err', cls) -> the driver's answer form"""
+    if r[0] != "ok":
+        return "err " + r[1]
+    if not isinstance(r[1], dict) or not all(isinstance(k, str) and ini_scalar_ok(v) for k, v in r[1].items()):
+        return "ok ?" + repr(r[1])
+    return "ok " + enc_val(dict(r[1]))
+
+
+def ini_value_line(c):
+    return "ini.value %s" % enc_str(c["s"])
+
+
+def ini_value_impl(c):
+    dpv = ini_impl()[2]
+    r = core.call(dpv, ("", c["s"]), "")
+    if r[0] != "ok":
+        return "err " + r[1]
+    return "ok " + enc_val(r[1]) if ini_scalar_ok(r[1]) else "ok ?" + repr(r[1])
+
+
+def ini_isnum_line(c):
+    return "ini.isnum %s" % enc_str(c["s"])
+
+
+def ini_isnum_impl(c):
+    r = core.call(ini_impl()[3], c["s"])
+    return "ok " + tf(r[1]) if r[0] == "ok" else "err " + r[1]
+
+
+def ini_parse_line(c):
+    return ("ini.parse %s %s" % (enc_str(c["eq"]), " ".join(enc_str(x) for x in c["lines"]))).rstrip()
+
+
+def ini_parse_impl(c):
+    return ini_show_dict(core.call(ini_impl()[0], list(c["lines"]), equal_tag=c["eq"]))
+
+
+def _with_file(fn):
+    fd, path = tempfile.mkstemp(suffix=".ini", prefix="c17_")
+    os.close(fd)
+    try:
+        return fn(path)
+    finally:
+        try:
+            os.unlink(path)
+        except OSError:
+            pass
+
+
+def ini_rt_line(c):
+    return "ini.rt %s %s" % (enc_str(c["eq"]), enc_val(c["m"]))
+
+
+def ini_rt_impl(c):
+    _, load_ini, _, _, save_file, _ = ini_impl()
+
+    def go(path):
+        r = core.call(save_file, path, dict(c["m"]), EOL=c["eol"], equal_tag=c["eq"])
+        if r[0] != "ok":
+            return "err " + r[1]
+        return ini_show_dict(core.call(load_ini, path, equal_tag=c["eq"]))
+
+    return _with_file(go)
+
+
+def ini_read_line(c):
+    return "ini.read %s" % enc_str(c["s"])
+
+
+def ini_read_impl(c):
+    _, _, _, _, save_file, load_lines = ini_impl()
+
+    def go(path):
+        r = core.call(save_file, path, c["s"], EOL="\n")
+        if r[0] != "ok":
+            return "err " + r[1]
+        r = core.call(lambda: list(load_lines(path)))
+        return okstrs(r[1]) if r[0] == "ok" else "err " + r[1]
+
+    return _with_file(go)
+
+
+NUM_TEXTS = ["12", " 12 ", "+5", "-7", "007", "-0", "1.50", "1.2.3", ".5", "5.", "-", "+", "1e3", ".", "- 5", "+ 7", "-.", "+.5", "-0.0", "0.0001",
+             "0.00001", "1.12345678", "1.1234567", "123456789012345.", "1234567890123456.", "12345678.1234567", "123456789.1234567", "00012.5000",
+             "²", "٣", "1٣", "- 5", "½", "5 ", "--5", "+-5", "5-", "5+", "1 2", "1_0", "0x10", "１", "1.٣"]
+QUOTE_TEXTS = ['"quoted"', "'single'", '" sp "', '"', "'", "'a\"", '""', "''", '"a', 'a"', "\"'", ' "x" ', '"12"', "'1.5'", '"a"b"']
+PLAIN_TEXTS = ["", " ", "a=b", "# not a comment", "// x", "a b", "v+", "abc", "True", "None", "é", "café", "€5", "x\ty", "\x16"]
+
+
+def gen_ini_value_text(rng):
+    t = rng.randrange(10)
+    if t < 3:
+        return rng.choice(NUM_TEXTS[:28] if rng.random() < 0.8 else NUM_TEXTS)
+    if t == 3:
+        return rng.choice(QUOTE_TEXTS)
+    if t == 4:
+        return rng.choice(PLAIN_TEXTS)
+    if t < 7:  # decimals and integers of every length
+        ip = "".join(rng.choice("0123456789" if rng.random() < 0.7 else "09") for _ in range(rng.choice([0, 0, 1, 1, 1, 2, 2, 3, 4, 5, 8, 9, 12, 14, 16])))
+        fp = "".join(rng.choice("0123456789" if rng.random() < 0.7 else "059") for _ in range(rng.choice([0, 0, 1, 1, 2, 2, 3, 3, 5, 6, 7, 7, 8])))
+        body = ip + rng.choice([".", ".", ".", ""]) + fp
+        return rng.choice(["", "", " ", "\t"]) + rng.choice(["", "", "+", "-", "- ", "+\t"]) + body + rng.choice(["", "", " ", "\n"])
+    al = ["0", "1", "5", "9", ".", ".", "+", "-", " ", '"', "'", "a", "e", "=", "\t", "²", "٣", "é", " ", "_"]
+    return "".join(rng.choice(al) for _ in range(rng.choice([0, 1, 1, 2, 2, 3, 4, 6])))
+
+
+def gen_ini_key_text(rng, eq):
+    t = rng.randrange(8)
+    if t == 0:
+        k = rng.choice(["", " ", "#k", "//k", "/k", " #k", "k#", "k+", "k +", "k+ ", "+", "++", "k++", "kk", "K", "a.b"] + (["é", "straße", "µ"] if rng.random() < 0.2 else []))
+    else:
+        k = "".join(rng.choice(["k", "K", "a", "b", "1", "_", " ", ".", "/", "+"]) for _ in range(rng.choice([1, 1, 2, 3])))
+    if rng.random() < 0.3:
+        k = k + "+"
+    if rng.random() < 0.15:
+        k = rng.choice([" ", "\t", "  "]) + k
+    if rng.random() < 0.15:
+        k = k + " "
+    return k
+
+
+def gen_ini_line(rng, eq):
+    t = rng.randrange(12)
+    if t == 0:
+        return rng.choice(["", " ", "\t", "  \t ", "\n"])
+    if t == 1:
+        return rng.choice(["# comment", "// comment", "  # k=v", "\t//k=v", "#", "//", "#k+=v", "/ k=v", "/", " /=/"])
+    if t == 2:  # no equal tag on the line
+        return gen_ini_key_text(rng, eq).replace(eq, "")
+    if t == 3:  # several equal tags
+        return gen_ini_key_text(rng, eq) + eq + gen_ini_value_text(rng) + eq + gen_ini_value_text(rng)
+    return gen_ini_key_text(rng, eq) + rng.choice(["", "", " "]) + eq + gen_ini_value_text(rng)
+
+
+def gen_ini_lines_case(rng):
+    eq = rng.choice(INI_EQS + ([""] if rng.random() < 0.05 else []))
+    return {"eq": eq, "lines": [gen_ini_line(rng, eq) for _ in range(rng.choice([0, 1, 1, 2, 3, 4, 6, 9]))]}
+
+
+def gen_ini_mapping(rng, eq, wild=False):
+    m = {}
+    for _ in range(rng.choice([0, 1, 2, 3, 4, 5])):
+        k = gen_ini_key_text(rng, eq)
+        if not wild:
+            k = k.replace(eq.strip() or "=", "")
+        t = rng.randrange(8)
+        if t == 0:
+            v = rng.choice([0, 7, -3, 10**10, -10**20, 12345])
+        elif t == 1:
+            v = rng.choice([1.5, -0.25, 3.14159265358979, 2.0, 1e20, 1e-5, -0.0, 0.1 + 0.2, 1234567.1234567])
+        elif t == 2 and wild:
+            v = rng.choice([None, True, False, "a\nb=c", "x\r", "\r\nk=1"])
+        else:
+            v = gen_ini_value_text(rng)
+            if not wild:
+                v = v.replace("\n", "").replace("\r", "")
+        m[k] = v
+    return m
+
+
+def ini_key_in_statement(k, eq):
+    """keys of the statement's mappings: stripped non-empty ASCII names without equal-tag characters
+    that do not start a comment (hypotheses of C17_ini_roundtrip)"""
+    return (bool(k) and k == k.strip() and k.isascii() and not k.startswith("#") and not k.startswith("//")
+            and not any(ch in eq for ch in k) and "\n" not in k and "\r" not in k)
+
+
+def ini_exact_text(v):
+    """values for which the Lean model answers (not `unsupported`): no numeric or white-space character outside
+    ASCII, decimals short enough for round(float(x), 7) to be the decimal itself"""
+    s = v.strip()
+    if any(ord(ch) > 127 and (ch.isnumeric() or ch.isspace()) for ch in s):
+        return False
+    b = s[1:] if s[:1] in ("+", "-") else s
+    ip, dot, fp = b.partition(".")
+    if dot and (ip + fp).isdigit() and ip.isascii() and fp.isascii():
+        i, f = ip.lstrip("0"), fp.rstrip("0")
+        if len(f) > 7 or len(i) + len(f) > 15 or (not i and f and len(f) - len(f.lstrip("0")) >= 4):
+            return False
+    return True
+
+
+def ini_lines_reference(lines, eq="="):
+    """parse_ini as the statement reads: comment and blank lines skipped, first equal tag splits, keys stripped and
+    upper-cased, values typed, `K+` keys concatenate (a first `K+` starts with the marker)"""
+    out = {}
+    for line in lines:
+        s = line.lstrip()
+        if not s or s.startswith("#") or s.startswith("//"):
+            continue
+        k, v = s.split(eq, 1) if eq and eq in s else (s, "")
+        key, val = k.strip().upper(), ini_typed(v)
+        if key.endswith("+"):
+            key = key[:-1].rstrip()  # the key is a stripped name (fix C17-g)
+            val = "%s%s" % (out[key], val) if key in out else "\x16%s" % (val,)
+        out[key] = val
+    return out
+
+
+def _same_dict(got, want):
+    return got == want and list(got) == list(want) and [type(v) for v in got.values()] == [type(v) for v in want.values()]
+
+
+def check_ini_concat(c):
+    """`K=a` then `K+=b` gives str(a)+str(b) (typed values, printed); `K+=b` on an unseen key gives marker+b;
+    a second parse in the same process gives the same"""
+    parse_ini = ini_impl()[0]
+    K, a, b, eq = c["k"], c["a"], c["b"], c["eq"]
+    ta, tb = ini_typed(a), ini_typed(b)
+    key = K.strip().upper()
+    for lines, want in (([K + eq + a, K + "+" + eq + b], {key: "%s%s" % (ta, tb)}),
+                        ([K + eq + a, K + " +" + eq + b], {key: "%s%s" % (ta, tb)}),         # blank before '+=' (fix C17-g)
+                        ([" " + K + "\t+" + eq + b], {key: "\x16%s" % (tb,)}),
+                        ([K + "+" + eq + b], {key: "\x16%s" % (tb,)}),
+                        ([K + "+" + eq + a, K + "+" + eq + b], {key: "\x16%s%s" % (ta, tb)}),
+                        ([K + "+" + eq + b, K + eq + a], {key: ta})):
+        for _ in range(2):
+            r = core.call(parse_ini, list(lines), equal_tag=eq)
+            if r[0] != "ok":
+                return {"lines": lines, "raised": r[1]}
+            if not _same_dict(r[1], want):
+                return {"lines": lines, "got": repr(r[1]), "want": repr(want)}
+    return None
+
+
+def check_ini_comments(c):
+    """comment and blank lines change nothing"""
+    parse_ini = ini_impl()[0]
+    kept = [ln for ln, noise in zip(c["lines"], c["noise"]) if not noise]
+    a = core.call(parse_ini, list(c["lines"]), equal_tag=c["eq"])
+    b = core.call(parse_ini, kept, equal_tag=c["eq"])
+    if a[0] != "ok" or b[0] != "ok":
+        return {"raised": [a[1] if a[0] != "ok" else None, b[1] if b[0] != "ok" else None]}
+    if not _same_dict(a[1], b[1]):
+        return {"with": repr(a[1]), "without": repr(b[1])}
+    return None
+
+
+def check_ini_lines(c):
+    """parse_ini(lines) = the reference written from the statement"""
+    parse_ini = ini_impl()[0]
+    r = core.call(parse_ini, list(c["lines"]), equal_tag=c["eq"])
+    want = ini_lines_reference(c["lines"], c["eq"])
+    if r[0] != "ok":
+        return {"raised": r[1], "want": repr(want)}
+    if not _same_dict(r[1], want):
+        return {"got": repr(r[1]), "want": repr(want)}
+    return None
+
+
+def _is_noise(line):
+    s = line.lstrip()
+    return (not s) or s.startswith("#") or s.startswith("//")
+
+
 # ---------------------------------------------------------------------------
 EVALS = {
     "spec": check_spec, "plain": check_plain, "total": None, "independent": check_independent, "join": check_join,
     "dict_roundtrip": check_dict_roundtrip, "nested": check_nested, "default": check_default, "ini": check_ini,
     "keyvalue": check_keyvalue, "protected": check_protected,
+    "ini_concat": check_ini_concat, "ini_comments": check_ini_comments, "ini_lines": check_ini_lines,
 }
 
 
@@ -534,6 +822,8 @@ def shrink_failure(evaluator, case):
     valid = VALID.get(_base(evaluator), lambda c: True)
 
     def still(c):
+        if _base(evaluator).startswith("ini_") and (not isinstance(c, dict) or c.get("eq") != case.get("eq")):
+            return False  # the equal tag is an option of the case: never shrunk
         return valid(c) and fn(c) is not None
 
     return core.shrink(case, still)
@@ -554,6 +844,8 @@ def _dict_valid(c):
 
 def safe_seps(d, eq):
     bad = set("\\x0123456789abcdef")  # as hypothesis SafeSep of C17_dict_roundtrip
+    if any(ord(ch) > 0xFF for ch in d + eq) and (set(d + eq) & set("uU")):
+        return False  # hypothesis WideOk: with a separator character above U+00FF the notation \uNNNN / \UNNNNNNNN appears
     return bool(d) and bool(eq) and not (set(d) & bad) and not (set(eq) & bad) and not (set(d) & set(eq))
 
 
@@ -569,6 +861,11 @@ VALID = {
     "ini": lambda c: isinstance(c.get("m"), dict) and c.get("eol") in ("\n", "\r\n") and ini_in_statement(c["m"]),
     "protected": lambda c: _dict_valid(c),
     "keyvalue": lambda c: c.get("eq") and isinstance(c.get("k"), str) and isinstance(c.get("v"), str) and all(ch not in c["eq"] for ch in c["k"]),
+    "ini_concat": lambda c: c.get("eq") in INI_EQS and ini_key_in_statement(c.get("k", ""), c["eq"]) and not c["k"].endswith("+")
+    and all(isinstance(c.get(x), str) and "\n" not in c[x] and "\r" not in c[x] for x in ("a", "b")),
+    "ini_comments": lambda c: c.get("eq") in INI_EQS and isinstance(c.get("lines"), list) and isinstance(c.get("noise"), list) and len(c["lines"]) == len(c["noise"])
+    and all(isinstance(ln, str) and (not nz or _is_noise(ln)) for ln, nz in zip(c["lines"], c["noise"])),
+    "ini_lines": lambda c: isinstance(c.get("lines"), list) and all(isinstance(ln, str) for ln in c["lines"]) and c.get("eq") in INI_EQS + [""],
 }
 
 
@@ -598,7 +895,8 @@ def replay(rp):
     return 1 if mo != io_ else 0
 
 
-IMPLS = {"esc.split": split_impl, "esc.spec": spec_py, "esc.dlist": dlist_impl, "esc.kv": kv_impl, "esc.ddict": ddict_impl,
+IMPLS = {"ini.value": ini_value_impl, "ini.isnum": ini_isnum_impl, "ini.parse": ini_parse_impl, "ini.rt": ini_rt_impl, "ini.read": ini_read_impl,
+         "esc.split": split_impl, "esc.spec": spec_py, "esc.dlist": dlist_impl, "esc.kv": kv_impl, "esc.ddict": ddict_impl,
          "esc.ser": ser_impl, "esc.unesc": unesc_impl, "esc.rt": rt_impl}
 
 
@@ -611,7 +909,6 @@ def witness_fails(finding):
 # ---------------------------------------------------------------------------
 def run(ctx):
     n = ctx.budget(3000, 60000)
-    known_e = lambda c, bad=None: "C17-e" if non_ascii_value(c) else None  # noqa
 
     # ---- B1: split_with_escape, random
     rng = ctx.rng("split")
@@ -746,7 +1043,7 @@ def run(ctx):
         d, eq = rng.choice(SAFE_DELIMS), rng.choice(SAFE_EQS)
         if rng.random() < 0.1:
             d = rng.choice(["a", "5", "x", "\\", "€", "="])
-        rts.append({"m": gen_flat(rng, d, eq, nonascii=rng.random() < 0.1, clean=rng.random() < 0.85), "d": d, "eq": eq})
+        rts.append({"m": gen_flat(rng, d, eq, nonascii=rng.random() < 0.3, clean=rng.random() < 0.85), "d": d, "eq": eq})
     ctx.correspond("esc.rt", rts, rt_line, rt_impl, nontrivial=lambda c: len(c["m"]) > 0)
     dr = [c for c in rts if _dict_valid(c)]
     for d in SAFE_DELIMS + ["A", "\u20ac", "F;"]:  # the whole reserved alphabet, one character at a time, every safe separator pair
@@ -754,8 +1051,13 @@ def run(ctx):
             if safe_seps(d, eq):
                 for ch in RESERVED + list(d) + list(eq) + ["\t", "\n", "\r", "\x00", "\x7f", "a", "'"]:
                     dr.append({"m": {"k": ch, "j": "a" + ch + ch + "b"}, "d": d, "eq": eq})
-    ctx.evaluate("dict_roundtrip", dr, check_dict_roundtrip, in_known=known_e, nontrivial=lambda c: len(c["m"]) > 0)
-    ctx.evaluate("protected", [c for c in dr if not non_ascii_value(c)], check_protected, nontrivial=lambda c: len(c["m"]) > 0)
+    for d, eq in (("\u20ac", "="), (";", "\u00e9"), ("\U0001f600", ":"), ("\u20ac;", "=>"), ("\u00ff", "\u0100"), ("\uffff", "\U00010000"),
+                  ("\U0010ffff", "=")):  # reserved characters outside ASCII, at the borders of the \\xNN / \\uNNNN / \\UNNNNNNNN notations (fix C17-e)
+        for ch in list(d) + list(eq) + ["\u00e9", "\u20ac", "\U0001f600", "\\", "\u00ff", "\u0100"]:
+            dr.append({"m": {"k": ch, "j": "a" + ch + ch + "\\" + ch}, "d": d, "eq": eq})
+    ctx.correspond("esc.rt/wide", [c for c in dr if non_ascii_case([c["d"], c["eq"]])], rt_line, rt_impl)
+    ctx.evaluate("dict_roundtrip", dr, check_dict_roundtrip, nontrivial=lambda c: len(c["m"]) > 0)
+    ctx.evaluate("protected", dr, check_protected, nontrivial=lambda c: len(c["m"]) > 0)
     # ---- C: nested mappings serialise
     rng = ctx.rng("nested")
     ns = []
@@ -773,13 +1075,71 @@ def run(ctx):
         if ini_in_statement(m):
             inis.append({"m": m, "eol": rng.choice(["\n", "\r\n"])})
     ctx.evaluate("ini", inis, check_ini, nontrivial=lambda c: len(c["m"]) > 0)
+    # ---- B8: INI model (Model/Ini.lean): isnumber, default_parse_value, parse_ini, load_ini(save_file(m)), load_lines
+    rng = ctx.rng("ini.value")
+    vals = [{"s": x} for x in NUM_TEXTS + QUOTE_TEXTS + PLAIN_TEXTS] + [{"s": gen_ini_value_text(rng)} for _ in range(n)]
+    ctx.correspond("ini.value", vals, ini_value_line, ini_value_impl, nontrivial=lambda c: any(ch.isdigit() for ch in c["s"]) or '"' in c["s"] or "'" in c["s"])
+    import unicodedata  # noqa
+    cps = set(range(0, 0x250))
+    prev = False
+    for cp in range(0x250, 0x110000):  # every boundary of str.isnumeric(), both sides
+        cur = chr(cp).isnumeric()
+        if cur != prev:
+            cps.update((cp - 1, cp))
+        prev = cur
+    cps.update(rng.randrange(0x110000) for _ in range(ctx.budget(2000, 60000)))
+    isn = [{"s": chr(cp)} for cp in sorted(cps) if not 0xD800 <= cp <= 0xDFFF]
+    isn += [{"s": x["s"]} for x in vals[: n // 2]]
+    ctx.correspond("ini.isnum", isn, ini_isnum_line, ini_isnum_impl, nontrivial=lambda c: len(c["s"]) > 0)
+    rng = ctx.rng("ini.parse")
+    pcs = [gen_ini_lines_case(rng) for _ in range(n)]
+    pcs += [{"eq": "=", "lines": ls} for ls in (["// Ini file", "KEY1 =VALUE1", "# KEY2=VALUE2", "KEY3= VALUE3"], ["K=.", "K=- 5", "K=\u00b2"],
+                                                ["k=a", "k+=b", "K +=c", "k+", "+=x", "+", "q+=1", "q+=2.50", "q+=\"z\""], ["a=1", "a+=2", "A=1.5", "a+= x "])]
+    nt_parse = lambda c: any(not _is_noise(ln) for ln in c["lines"])  # noqa
+    ctx.correspond("ini.parse", pcs, ini_parse_line, ini_parse_impl, nontrivial=nt_parse)
+    rng = ctx.rng("ini.rt")
+    rtc = []
+    for _ in range(n // 2):
+        eq = rng.choice(INI_EQS)
+        rtc.append({"eq": eq, "m": gen_ini_mapping(rng, eq, wild=rng.random() < 0.3), "eol": rng.choice(["\n", "\n", "\r\n", "\r"])})
+    ctx.correspond("ini.rt", rtc, ini_rt_line, ini_rt_impl, nontrivial=lambda c: len(c["m"]) > 0)
+    rds = [{"s": "".join(rng.choice(["a", "b", "=", " ", "\n", "\n", "\r", "\r\n", "\x0b", "\x0c", "\x1c", "\x85", "\u2028"]) for _ in range(rng.choice([0, 1, 2, 3, 5, 8])))}
+           for _ in range(n // 6)]
+    ctx.correspond("ini.read", rds, ini_read_line, ini_read_impl, nontrivial=lambda c: "\n" in c["s"] or "\r" in c["s"])
+    # ---- C: INI lines against the statement's reference, '+=' concatenation, comments
+    ctx.evaluate("ini_lines", [c for c in pcs], check_ini_lines, nontrivial=nt_parse)
+    rng = ctx.rng("ini_concat")
+    ccs = []
+    while len(ccs) < n // 4:
+        eq = rng.choice(INI_EQS)
+        c = {"k": gen_ini_key_text(rng, eq).strip().rstrip("+").strip(), "a": gen_ini_value_text(rng), "b": gen_ini_value_text(rng), "eq": eq}
+        if VALID["ini_concat"](c):
+            ccs.append(c)
+    ctx.evaluate("ini_concat", ccs, check_ini_concat)
+    rng = ctx.rng("ini_comments")
+    cms = []
+    for _ in range(n // 4):
+        eq = rng.choice(INI_EQS)
+        lines, noise = [], []
+        for _ in range(rng.choice([1, 2, 3, 5, 8])):
+            ln = gen_ini_line(rng, eq)
+            lines.append(ln)
+            noise.append(_is_noise(ln) and rng.random() < 0.8)
+        cms.append({"eq": eq, "lines": lines, "noise": noise})
+    ctx.evaluate("ini_comments", cms, check_ini_comments, nontrivial=lambda c: any(c["noise"]) and not all(c["noise"]))
     ctx.extra["assumptions"] = [
-        "the model follows the code with fix patches C17-a, C17-b, C17-c, C17-d applied (C17-f concerns parse_ini, which has no model)",
+        "the model follows the code with fix patches C17-a ... C17-g applied",
         "escape character: None/'' or a single character (a longer escape_character is outside the model)",
-        "unescape = UTF-8 encoding followed by CPython 3.12's unicode_escape decoder, hand-modelled (\\N{...} and lone surrogates: unsupported); validated by stream esc.unesc",
+        "unescape = latin-1/backslashreplace encoding followed by CPython 3.12's unicode_escape decoder, hand-modelled (\\N{...} and lone surrogates: unsupported); validated by stream esc.unesc",
         "str.split(sep, maxsplit) is hand-modelled (splitAux) and validated by the esc.split streams with escape None",
         "str.upper()/lower() modelled for ASCII only (unsupported otherwise); str() of int/bool/float as in Val",
         "dict insertion order (dict(pairs)) is modelled by an association list",
-        "INI: no Lean model; load_ini(save_file(m)) is compared with a reference written from the statement (evaluator `ini`)",
+        "INI: int() / float() are modelled as the grammars [+-]digits / [+-]digits.digits on the texts isnumber lets through; round(float(x), 7) and repr only for "
+        "decimals with <= 15 significant digits, <= 7 after the point, zero or >= 0.0001 (else unsupported); values that isnumber accepts and that contain a "
+        "character above U+007F are unsupported; str.isnumeric() above U+007F is a table (Unicode 15.0); keys outside ASCII are unsupported (str.upper)",
+        "INI: the file layer (encoding, utf-8-sig BOM, newline translation of EOL) is not modelled: readLines is universal-newline reading of the text "
+        "save_file is given; stream ini.rt goes through a real file with EOL '\\n', '\\r\\n', '\\r'",
+        "INI: default parse_key / parse_value / comment_tags / default_value / concatenate_sign only; equal_tag one string",
+        "the INI reference of evaluators ini / ini_lines / ini_concat is a Python reading of the statement (trusted)",
     ]
     ctx.extra["trusted_base"] = ["Python transcription of splitSpec in harness/props/c17.py (tied to Lean's splitSpec by stream esc.spec)"]
